@@ -28,9 +28,14 @@ RULE = ("gate enumeration on valid generated inputs: exhaustive single-bit flips
         "feature bit 5..63, data-file / extended-L2 / zstd flags without support, missing backing argument, missing VHDX regions, "
         "foreign parent-locator type, unsupported Parallels image type, missing DiskDescriptor.xml, keystore modes, key-safe "
         "identifiers / locator kinds / cipher / MAC / KDF names. Every case must raise at open (`E`); only raised-vs-returned is "
-        "compared. Non-trivial = every case (each carries exactly one gate mutation); distinct (family, gate, value).")
+        "compared, three ways: real code vs expectation vs the Lean model of that parser (Vdi/Hds/Qcow2/Vhdx/Vmdk opens, HyperV.asDict, "
+        "Envelope.openEnv / keystore, Vmx.unlock over the primitive table, HddOpen.open over the parsed element tree). Each non-disk family "
+        "also carries its unmutated input (`base_ok`), which must be accepted by code and model alike. Non-trivial = every case (each "
+        "carries exactly one gate mutation); distinct (family, gate, value).")
 ASSUMPTIONS = ["only raised vs returned is compared (exception class is not verdict-bearing)",
-               "gates of the non-disk parsers (Hyper-V, envelope, keystore, key safe) are compared implementation vs expectation; their Lean models are part of C15-C17"]
+               "the crypto primitives of the key-safe model (PBKDF2, HMAC, AES-CBC, base64, int, UTF-8 validity, .vmx dictionary syntax) are a finite table computed with the real libraries (protocol of C15); a model answer `need …` for the keystore (PBKDF2 with 100000 rounds) counts as accepted: every gate lies before the first crypto call (keystore_gate_before_content)",
+               "the Parallels directory is abstract in the model (descriptor present / parsed element tree / which names `_open_image` can open)"]
+ACCEPT = {"hyperv": "ok", "envelope": "accepted", "vmx": "unlocked"}
 TIMEOUT_CASE = 30.0
 
 
@@ -133,9 +138,22 @@ def generate(seed, tier):
                     add("vmdk", {"extent": ext}, f"footer_magic_bit{b}", [["e", foff, flip(fm, b).hex()]])
         # ---------------- Parallels directory
         rd = gen_hdd.gen_recipe(rng, "quick", max_depth=1)
-        for ty in ["Foo", "compressed", "Expanding", ""]:
-            add("hdd", rd, f"image_type_{ty or 'empty'}", [], {"image_type": ty})
+        add("hdd", rd, "base_ok", [], {"expect_ok": True})
+        for ty in ["Foo", "compressed", "Expanding", "", "PLAIN", "Plain "]:
+            add("hdd", rd, f"image_type_{ty.replace(' ', '_') or 'empty'}", [], {"image_type": ty})
         add("hdd", rd, "missing_descriptor", [], {"no_descriptor": True})
+        # ---------------- VHDX parent locator type (differencing image next to its parent in a real directory)
+        while True:
+            rp = gen_vhdx.gen_recipe(rng, "quick", depth=2)
+            if all(l["bs"] <= 2 << 20 and len(l["blocks"]) <= 3 for l in rp["layers"]):
+                break
+        rp["layers"][1]["locator"] = "relative"
+        poff = vhdx_locator_offset(rp)
+        add("vhdx2", rp, "locator_base_ok", [], {"expect_ok": True})
+        for b in (0, 7, 63, 64, 127):
+            add("vhdx2", rp, f"locator_type_bit{b}", [["l1", poff, flip(gen_vhdx.PLOC_TYPE, b).hex()]])
+        add("vhdx2", rp, "locator_type_zero", [["l1", poff, bytes(16).hex()]])
+        add("vhdx2", rp, "locator_type_item_guid", [["l1", poff, gen_vhdx.PLOC.hex()]])
         # ---------------- Hyper-V
         import gen_hyperv
         ry = gen_hyperv.gen_recipe(rng, "quick")
@@ -146,6 +164,8 @@ def generate(seed, tier):
         # ---------------- envelope / keystore
         import gen_envelope
         re_ = gen_envelope.gen_recipe(rng, "quick")
+        add("envelope", re_, "base_ok", [], {"expect_ok": True})
+        add("envelope", re_, "keystore_base_ok", [], {"expect_ok": True})
         for gate in (["magic_bit%d" % b for b in range(0, 168)] + ["version_%d" % v for v in (0, 1, 3, 255, 1 << 31)] +
                      ["footer_version_%d" % v for v in (0, 2, 255)] + ["cipher_AES-128-GCM", "cipher_AES-256-CBC", "cipher_"] +
                      ["missing_vmware.keyInfo", "missing_vmware.cipherName", "missing_vmware.keyHash"] +
@@ -153,7 +173,17 @@ def generate(seed, tier):
             add("envelope", re_, gate, [])
         # ---------------- vmx key safe
         import gen_vmx
-        rm = gen_vmx.gen_recipe(rng, "quick")
+        vmx_gates = ["identifier", "locator_rawkey", "locator_ldap", "locator_script", "cipher_AES-512", "cipher_DES", "mac_HMAC-MD5", "mac_HMAC-SHA-512",
+                     "kdf_PBKDF2-HMAC-MD5", "kdf_scrypt", "not_a_list"]
+        while True:                      # a recipe whose encoding every mutation applies to
+            rm = gen_vmx.gen_recipe(rng, "quick")
+            try:
+                for gate in vmx_gates:
+                    vmx_mutated(rm, gate)
+                break
+            except HarnessError:
+                continue
+        add("vmx", rm, "base_ok", [], {"expect_ok": True})
         for gate in ["identifier", "locator_rawkey", "locator_ldap", "locator_script", "cipher_AES-512", "cipher_DES", "mac_HMAC-MD5", "mac_HMAC-SHA-512",
                      "kdf_PBKDF2-HMAC-MD5", "kdf_scrypt", "not_a_list"]:
             add("vmx", rm, gate, [])
@@ -162,6 +192,10 @@ def generate(seed, tier):
 
 # --------------------------------------------------------------------------------------------- building
 
+class HarnessError(BaseException):
+    """a problem of the harness itself: never to be mistaken for a refusal by the code under test"""
+
+
 def _apply(files, patches):
     out = {k: v for k, v in files.items()}
     for fid, off, hx in patches:
@@ -169,10 +203,67 @@ def _apply(files, patches):
     return out
 
 
+def _img(data: bytes) -> Image:
+    im = Image()
+    im.put_hex(0, bytes(data))
+    im.finish(len(data))
+    return im
+
+
+def vhdx_locator_offset(r) -> int:
+    """file offset of the parent-locator item (its first 16 bytes are the locator type GUID) in the top layer"""
+    im = gen_vhdx.Truth(r).layers[-1][1]
+    moff = 2 << 20
+    n = struct.unpack("<H", im.read_at(moff + 10, 2))[0]
+    for k in range(n):
+        ent = im.read_at(moff + 32 + 32 * k, 32)
+        if ent[:16] == gen_vhdx.PLOC:
+            return moff + struct.unpack("<I", ent[16:20])[0]
+    raise HarnessError("no parent locator item")
+
+
+def hdd_xml(case, r):
+    """the descriptor text of a Parallels case: `None` = no DiskDescriptor.xml; an image_type case changes the type of the
+    image of the first storage (in XML order) that lies on the snapshot chain, so the mutation is always on the open path"""
+    if case.get("no_descriptor"):
+        return None
+    if "image_type" not in case:
+        return gen_hdd.render_xml(r)
+    import copy
+    r2 = copy.deepcopy(r)
+    st = r2["storages"][r2["xml_order"][0]]
+    im = next(im for im in st["images"] if im["guid"] in r2["chain"])
+    im["type"] = case["image_type"]
+    return gen_hdd.render_xml(r2)
+
+
+def hdd_names(r):
+    """what the `File` elements say -> the file in the directory `_open_image` ends up with"""
+    root_dir = "/nonexistent/orig.pvm/orig.hdd"
+    return {((root_dir + "/" + im["file"]) if r["abs_paths"] else im["file"]): im["file"] for s in r["storages"] for im in s["images"]}
+
+
+_MEMO: dict = {}
+
+
+def _gen_build(mod_name: str, r):
+    """`gen_<x>.build(recipe)` once per recipe and process (every gate case of a family shares one recipe)"""
+    import copy
+    import importlib
+    import json
+    k = (mod_name, json.dumps(r, sort_keys=True, default=str))
+    if k not in _MEMO:
+        _MEMO[k] = importlib.import_module(mod_name).build(copy.deepcopy(r))      # some builders annotate the recipe they are given
+    return _MEMO[k]
+
+
+_VMX_PENDING: list = []        # (P, A) token pairs of every vmx case built in this process: their tables are resolved in one batch
+
+
 def build(case):
     fam, r = case["fam"], case["recipe"]
     info = {"branches": [fam, case["gate"].rstrip("0123456789")], "in_scope": True, "gate": case["gate"]}
-    truth = ["ok"] if case.get("expect_ok") else ["E"]
+    truth = [ACCEPT.get(fam, "opened-and-served")] if case.get("expect_ok") else ["E"]
     if fam == "qcow2":
         t = gen_qcow2.Truth(r)
         b = Built(_apply(dict(t.files), case["patches"]), truth, info)
@@ -187,6 +278,9 @@ def build(case):
     if fam == "vhdx":
         t = gen_vhdx.Truth(r)
         return Built(_apply({"l0": t.layers[0][1]}, case["patches"]), truth, info)
+    if fam == "vhdx2":
+        t = gen_vhdx.Truth(r)
+        return Built(_apply({f"l{k}": im for k, (_, im, _) in enumerate(t.layers)}, case["patches"]), truth, info)
     if fam == "vmdk":
         et = gen_vmdk.ExtentTruth(r["extent"])
         ty = {"cowd": "VMFSSPARSE", "sesparse": "SESPARSE"}.get(r["extent"]["kind"], "SPARSE")
@@ -197,18 +291,32 @@ def build(case):
         return Built(_apply({"d": d, "e": et.image}, case["patches"]), truth, info)
     if fam == "hdd":
         t = gen_hdd.Truth(r)
-        b = Built({}, truth, info)
-        b.t = t
+        ids = {name: f"f{k}" for k, name in enumerate(t.files)}
+        b = Built({ids[name]: im for name, im in t.files.items()}, truth, info)
+        b.t, b.ids, b.xml = t, ids, hdd_xml(case, r)
         return b
-    b = Built({}, truth, info)
-    return b
+    if fam == "hyperv":
+        data = bytearray(_gen_build("gen_hyperv", r)[0])
+        mutate_hyperv(data, case["gate"])
+        return Built({"a": _img(data)}, truth, info)
+    if fam == "envelope":
+        b = Built({}, truth, info)
+        if case["gate"].startswith("keystore_"):
+            b.ks_text = keystore_text(r, case["gate"])
+        else:
+            b.files = {"a": _img(envelope_bytes(r, case["gate"]))}
+        return b
+    if fam == "vmx":
+        import c15
+        b = Built({}, truth, info)
+        b.text, b.pw = vmx_mutated(r, case["gate"])
+        b.key = c15._tokens(b.text, b.pw)
+        _VMX_PENDING.append(b.key)
+        return b
+    raise HarnessError(fam)
 
 
 # --------------------------------------------------------------------------------------------- real code
-
-class HarnessError(BaseException):
-    """a problem of the harness itself: never to be mistaken for a refusal by the code under test"""
-
 
 def _try(fn):
     try:
@@ -248,39 +356,48 @@ def impl_run(case, built):
     if fam == "vhdx":
         from dissect.hypervisor.disk.vhdx import VHDX
         return _try(lambda: _served(VHDX(built.files["l0"].open())))
-    tmp = tempfile.mkdtemp(prefix="hvc12.")
-    try:
-        from pathlib import Path
-        if fam == "vmdk":
-            from dissect.hypervisor.disk.vmdk import VMDK
-            built.files["d"].write_to(os.path.join(tmp, "d.vmdk"))
-            built.files["e"].write_to(os.path.join(tmp, "e.vmdk"))
-            return _try(lambda: _served(VMDK(Path(tmp) / "d.vmdk")))
-        if fam == "hdd":
+    if fam in ("vmdk", "hdd", "vhdx2"):
+        tmp = tempfile.mkdtemp(prefix="hvc12.")
+        try:
+            from pathlib import Path
+            if fam == "vmdk":
+                from dissect.hypervisor.disk.vmdk import VMDK
+                built.files["d"].write_to(os.path.join(tmp, "d.vmdk"))
+                built.files["e"].write_to(os.path.join(tmp, "e.vmdk"))
+                return _try(lambda: _served(VMDK(Path(tmp) / "d.vmdk")))
+            if fam == "vhdx2":
+                from dissect.hypervisor.disk.vhdx import VHDX
+                for k in range(len(built.files)):
+                    built.files[f"l{k}"].write_to(os.path.join(tmp, f"l{k}.vhdx"))
+                return _try(lambda: _served(VHDX(Path(tmp) / f"l{len(built.files) - 1}.vhdx")))
             from dissect.hypervisor.disk.hdd import HDD
-            t = built.t
             d = os.path.join(tmp, "x.hdd")
-            t.write_dir(d)
-            if case.get("no_descriptor"):
-                os.unlink(os.path.join(d, "DiskDescriptor.xml"))
-            if "image_type" in case:
-                p = os.path.join(d, "DiskDescriptor.xml")
-                txt = open(p).read().replace("<Type>Compressed</Type>", f"<Type>{case['image_type']}</Type>", 1) \
-                    if "<Type>Compressed</Type>" in open(p).read() else open(p).read().replace("<Type>Plain</Type>", f"<Type>{case['image_type']}</Type>", 1)
-                open(p, "w").write(txt)
+            built.t.write_dir(d)
+            p = os.path.join(d, "DiskDescriptor.xml")
+            if built.xml is None:
+                os.unlink(p)
+            else:
+                with open(p, "w") as f:
+                    f.write(built.xml)
             return _try(lambda: _served(HDD(Path(d)).open()))
-    finally:
-        shutil.rmtree(tmp, ignore_errors=True)
+        finally:
+            shutil.rmtree(tmp, ignore_errors=True)
     if fam == "hyperv":
-        import gen_hyperv
         from dissect.hypervisor.descriptor.hyperv import HyperVFile
-        data = bytearray(gen_hyperv.build(r)[0])
-        mutate_hyperv(data, gate)
-        return _try(lambda: (HyperVFile(io.BytesIO(bytes(data))).as_dict(), "ok")[1])
+        return _try(lambda: (HyperVFile(built.files["a"].open()).as_dict(), "ok")[1])
     if fam == "envelope":
-        return _try(lambda: envelope_gate(r, gate))
+        from dissect.hypervisor.util.envelope import Envelope, KeyStore
+        if gate.startswith("keystore_"):
+            return _try(lambda: (KeyStore.from_text(built.ks_text), "accepted")[1])
+        return _try(lambda: (Envelope(built.files["a"].open()), "accepted")[1])
     if fam == "vmx":
-        return _try(lambda: vmx_gate(r, gate))
+        from dissect.hypervisor.descriptor.vmx import VMX
+
+        def go():
+            v = VMX.parse(built.text)
+            v.unlock_with_phrase(built.pw)
+            return "unlocked"
+        return _try(go)
     raise HarnessError(fam)
 
 
@@ -312,45 +429,47 @@ def mutate_hyperv(data: bytearray, gate: str):
                 data[off + b // 8] ^= 1 << (b % 8)
                 return
         raise HarnessError("no key table")
+    else:
+        raise HarnessError(gate)
 
 
-def envelope_gate(r, gate):
-    import gen_envelope
-    from dissect.hypervisor.util.envelope import Envelope, KeyStore
-    if gate.startswith("keystore_mode_"):
-        b = gen_envelope.build(r)
-        txt = b["keystore_text"]
-        import re
-        m = gate[len("keystore_mode_"):]
-        lines = [ln for ln in txt.split("\n") if not re.match(r"\s*mode\s*=", ln)]
-        if m != "missing":
-            lines.insert(0, f'mode = "{m}"')
-        KeyStore.from_text("\n".join(lines))
-        return "accepted"
+def keystore_text(r, gate) -> str:
+    import re
+
+    txt = _gen_build("gen_envelope", r)["keystore_text"]
+    if gate == "keystore_base_ok":
+        return txt
+    m = gate[len("keystore_mode_"):]
+    lines = [ln for ln in txt.split("\n") if not re.match(r"\s*mode\s*=", ln)]
+    if m != "missing":
+        lines.insert(0, f'mode = "{m}"')
+    return "\n".join(lines)
+
+
+def envelope_bytes(r, gate) -> bytes:
     if gate.startswith("missing_") or gate.startswith("cipher_"):
         r2 = dict(r)
         if gate.startswith("missing_"):
             r2["drop_required"] = gate[len("missing_"):]
         else:
             r2["cipher_name"] = gate[len("cipher_"):]
-        env = bytearray(build_envelope_variant(r2))
-    else:
-        env = bytearray(gen_envelope.build(r)["envelope"])
-        if gate.startswith("magic_bit"):
-            b = int(gate[9:])
-            env[b // 8] ^= 1 << (b % 8)
-        elif gate.startswith("version_"):
-            struct.pack_into("<I", env, 508, int(gate[8:]))
-        elif gate.startswith("footer_version_"):
-            struct.pack_into("<I", env, len(env) - 4, int(gate[15:]))
-    Envelope(io.BytesIO(bytes(env)))
-    return "accepted"
+        return build_envelope_variant(r2)
+    env = bytearray(_gen_build("gen_envelope", r)["envelope"])
+    if gate.startswith("magic_bit"):
+        b = int(gate[9:])
+        env[b // 8] ^= 1 << (b % 8)
+    elif gate.startswith("version_"):
+        struct.pack_into("<I", env, 508, int(gate[8:]))
+    elif gate.startswith("footer_version_"):
+        struct.pack_into("<I", env, len(env) - 4, int(gate[15:]))
+    elif gate != "base_ok":
+        raise HarnessError(gate)
+    return bytes(env)
 
 
 def build_envelope_variant(r2):
     """re-serialise the header attributes of a built envelope with one required attribute dropped / another cipher name"""
-    import gen_envelope
-    b = gen_envelope.build({k: v for k, v in r2.items() if k not in ("drop_required", "cipher_name")})
+    b = _gen_build("gen_envelope", {k: v for k, v in r2.items() if k not in ("drop_required", "cipher_name")})
     env = bytearray(b["envelope"])
     # attribute area: parse minimally (type u8, flag u8, 2 pad, name\0, value)
     pos = 512
@@ -383,51 +502,53 @@ def build_envelope_variant(r2):
     return bytes(new)
 
 
-def vmx_gate(r, gate):
-    import gen_vmx
-    from dissect.hypervisor.descriptor.vmx import VMX
-    b = gen_vmx.build(r)
-    text = b["text"]
+def vmx_mutated(r, gate):
+    """(.vmx text with one mutation inside the key safe, passphrase)"""
     import re
-    m = re.search(r'(?im)^(\s*encryption\.keysafe\s*=\s*")([^"]*)(")', text)
+
+    b = _gen_build("gen_vmx", r)
+    text = b["text"]
+    m = re.search(r'(?im)^(\s*encryption\.keysafe\s*=\s*"?)([^"\s]*)', text)
+    if not m or not m.group(2).startswith("vmware:key/list/"):
+        raise HarnessError("key safe not found")
     ks = m.group(2)
-    if gate == "identifier":
+    if gate == "base_ok":
+        ks2 = ks
+    elif gate == "identifier":
         ks2 = ks.replace("vmware:key", "vmware:kez", 1)
     elif gate.startswith("locator_"):
-        ks2 = ks.replace("phrase/", gate[8:] + "/", 1)
+        ks2 = ks.replace("phrase/", gate[8:] + "/", 1) if "phrase/" in ks else None
     elif gate == "not_a_list":
         ks2 = ks.replace("vmware:key/list/", "vmware:key/lisp/", 1)
     else:
         kind, val = gate.split("_", 1)
-        from urllib.parse import quote, unquote
+        from urllib.parse import unquote
+        ks2 = None
+        # names of the *first* pair only (the one `unseal_with_phrase` tries first; the names of pairs behind the one that
+        # unlocks are never looked up): `pair/(<locator>,<mac>,<data>)`, commas inside the locator are percent-encoded
+        i = ks.find("pair/(")
+        c1 = ks.find(",", i)
+        c2 = ks.find(",", c1 + 1)
+        if i < 0 or c1 < i or c2 < c1:
+            raise HarnessError("no first pair")
         if kind == "mac":
-            mac = b["combo"][1] if isinstance(b.get("combo"), (list, tuple)) else None
-            ks2 = None
-            for cand in ("HMAC-SHA-1-128", "HMAC-SHA-256", "HMAC-SHA-1"):
-                for enc in (cand, quote(cand, safe=""), cand.replace("-", "%2d"), cand.replace("-", "%2D")):
-                    if enc in ks:
-                        ks2 = ks.replace(enc, val)
-                        break
-                if ks2:
-                    break
+            if unquote(ks[c1 + 1:c2]) in ("HMAC-SHA-1", "HMAC-SHA-1-128", "HMAC-SHA-256"):
+                ks2 = ks[:c1 + 1] + val + ks[c2:]
         else:
             key = {"cipher": "cipher", "kdf": "pass2key"}[kind]
-            # the crypto dict of the phrase is url-encoded once more inside the locator: try both encodings of '='
-            ks2 = None
-            for eq in ("%3d", "%3D", "="):
-                mm = re.search(re.escape(key) + eq + r"([A-Za-z0-9%\-]+?)(?=(%3a|%3A|:|,|/|\)|$))", ks)
-                if mm:
-                    ks2 = ks[:mm.start(1)] + val + ks[mm.end(1):]
-                    break
-        if ks2 is None:
-            raise HarnessError("gate not applicable to this encoding")
-    text2 = text[:m.start(2)] + ks2 + text[m.end(2):]
-    v = VMX.parse(text2)
-    v.unlock_with_phrase(b["passphrase"])
-    return "unlocked"
+            # the crypto dict of the phrase is url-encoded once more inside the locator: either spelling of '='
+            mm = re.search(re.escape(key) + r"(?:%3d|%3D|=)([A-Za-z0-9%\-]+?)(?=(%3a|%3A|:|,|/|\)|$))", ks[:c1 + 1])
+            if mm:
+                ks2 = ks[:mm.start(1)] + val + ks[mm.end(1):]
+    if ks2 is None or (ks2 == ks and gate != "base_ok"):
+        raise HarnessError("gate not applicable to this encoding")
+    return text[:m.start(2)] + ks2 + text[m.end(2):], b["passphrase"]
 
 
 # --------------------------------------------------------------------------------------------- model
+
+DEFAULT_TOP_INT = 0x5fbaabe3695840ff92a7860e329aab41
+
 
 def model_lines(case, built):
     fam = case["fam"]
@@ -443,15 +564,57 @@ def model_lines(case, built):
         return core.file_lines(built.files) + ["hds.open 8192 l0"]
     if fam == "vhdx":
         return core.file_lines(built.files) + ["vhdx.open l0"]
+    if fam == "vhdx2":
+        return core.file_lines(built.files) + ["vhdx.open " + " ".join(f"l{k}" for k in range(len(built.files)))]
     if fam == "vmdk":
         return core.file_lines(built.files) + [f"vmdk.desc.open d {'e.vmdk'.encode().hex()}=e"]
+    if fam == "hdd":
+        # HddOpen.open over what the real XML parser made of the descriptor (no tokens: it raised)
+        toks = []
+        if built.xml is not None:
+            try:
+                import c14
+                toks = c14._tree_tokens(built.xml.encode("utf-8"))
+            except Exception:  # noqa
+                toks = []
+        names = [f"{k.encode().hex()}={built.ids[v]}" for k, v in hdd_names(case["recipe"]).items()]
+        return core.file_lines(built.files) + [" ".join(["meta.hddopen", "0", str(DEFAULT_TOP_INT), "-", "0" if built.xml is None else "1", "8192",
+                                                           str(len(names))] + names + toks)]
+    if fam == "hyperv":
+        return core.file_lines(built.files) + ["hyperv.tree a"]
+    if fam == "envelope":
+        if case["gate"].startswith("keystore_"):
+            return [f"env.keystore - {built.ks_text.encode('utf-8').hex() or '-'}"]
+        return core.file_lines(built.files) + ["env.attrs a"]
+    if fam == "vmx":
+        import c15
+        if built.key not in c15._TABLES:
+            c15.resolve(_VMX_PENDING + [built.key])
+        p, a = built.key
+        return [c15._line(p, a, {r: v for r, v in c15._TABLES[built.key].items() if not r.startswith("!")})]
     return []
 
 
 def model_parse(case, built, out):
     if not out:
         return {"answers": None, "wf": None}
-    return {"answers": ["E"] if out[0].startswith("err") else ["opened-and-served"], "wf": True}
+    fam, l = case["fam"], out[0]
+    ok = ACCEPT.get(fam, "opened-and-served")
+    verdict = None
+    if fam == "hyperv":              # `<as_dict> <typed walk>`, each `ok:…` or `E:<kind>`
+        verdict = "E" if l.startswith("E:") else ok if l.startswith("ok:") else None
+        if l.startswith("E:nonterm"):
+            verdict = None
+    elif fam == "envelope":          # env.attrs: `ok …` | `E <kind>`; env.keystore: `K…` | `need pbkdf2 …` | `E <kind>`
+        verdict = "E" if l.startswith("E ") else ok if (l.startswith("ok ") or l.startswith("K") or l.startswith("need pbkdf2 ")) else None
+    elif fam == "vmx":               # `ok <attr>` | `err value|other <attr>`; need / unsupported / nonterm are protocol
+        parts = l.split()
+        verdict = ok if parts[:1] == ["ok"] else "E" if parts[:1] == ["err"] and parts[1:2] in (["value"], ["other"]) else None
+    else:
+        verdict = "E" if l.startswith("err") else ok if l.startswith("ok") else None
+    if verdict is None:
+        return {"answers": None, "wf": None, "raw": l[:120]}
+    return {"answers": [verdict], "wf": True}
 
 
 def nontrivial(case, built, model):
